@@ -627,6 +627,11 @@ func opSync() error {
 				}
 				continue
 			}
+			if opErr != nil && sr.nodes[st.P] == nil {
+				// the node could not even dial (a busy machine): nothing was observed in this behaviour from here on
+				shaky = true
+				break
+			}
 			if opErr != nil && !sr.nodes[st.P].isClosed() {
 				miss(k, "sync-drift", fmt.Sprintf("%s(p%d) possible", st.Op, st.P), opErr.Error())
 				drifted = true
